@@ -12,6 +12,7 @@ import (
 	"crypto/rand"
 	"encoding/json"
 	"fmt"
+	"sort"
 	"strings"
 
 	"github.com/btcsuite/btcutil/base58"
@@ -231,7 +232,16 @@ func (v *VDR) Create(did *docdid.Doc,
 		return nil, err
 	}
 
+	// keys are added in the order of their ids: map iteration order would make the create request
+	// (and with it the DID) differ from call to call
+	ids := make([]string, 0, len(pks))
 	for k := range pks {
+		ids = append(ids, k)
+	}
+
+	sort.Strings(ids)
+
+	for _, k := range ids {
 		createOpt = append(createOpt, create.WithPublicKey(pks[k].publicKey))
 	}
 
